@@ -6,6 +6,7 @@ import (
 	"net"
 	"net/netip"
 	"sort"
+	"strings"
 	"syscall"
 	"time"
 
@@ -117,6 +118,12 @@ func runC20(w *World) {
 		return
 	}
 	keys := []string{"10.0.2.1", "10.0.2.2", "fd00:2::3"}
+	if w.Chance(1, 3, "v4-mapped-key") {
+		// an IPv4-mapped IPv6 remote address is a key of its own (and an IPv6 one)
+		keys[1] = "::ffff:10.0.2.1"
+		w.Probe("key:v4-mapped")
+	}
+	isV6 := func(k int) bool { return strings.Contains(keys[k], ":") }
 	sites := make([]*Site, 3)
 	for i, k := range keys {
 		sites[i] = w.Net.NewSite(k, k)
@@ -239,7 +246,7 @@ func runC20(w *World) {
 					}
 					if w.Chance(1, 2, "laddr") {
 						a.laddr = "10.0.0.6"
-						if key == 2 {
+						if isV6(key) {
 							a.laddr = "fd00::6"
 						}
 						opts = append(opts, corebgp.WithLocalAddress(netip.MustParseAddr(a.laddr)))
@@ -259,14 +266,14 @@ func runC20(w *World) {
 					var opts []corebgp.PeerOption
 					class := Pick(w, "invalid", "zero-remote-address", "family-mismatch", "local-as-0", "remote-as-0", "local-as-0-with-local-address", "remote-as-0-with-local-address", "hold-1", "hold-2", "port-0", "port-negative", "port-65536", "port-out-of-range")
 					la := "10.0.0.6"
-					if key == 2 {
+					if isV6(key) {
 						la = "fd00::6"
 					}
 					switch class {
 					case "zero-remote-address":
 						cfg.RemoteAddress = netip.Addr{}
 					case "family-mismatch":
-						if key == 2 {
+						if isV6(key) {
 							la = "10.0.0.6"
 						} else {
 							la = "fd00::6"
@@ -445,7 +452,7 @@ func runC20(w *World) {
 			}
 			if w.Chance(1, 2, "bladdr") {
 				a.laddr = "10.0.0.6"
-				if k == 2 {
+				if isV6(k) {
 					a.laddr = "fd00::6"
 				}
 				opts = append(opts, corebgp.WithLocalAddress(netip.MustParseAddr(a.laddr)))
@@ -466,9 +473,17 @@ func runC20(w *World) {
 					return
 				}
 				w.Probe("dial-observed-for-added-peer")
+			} else if strings.HasPrefix(keys[k], "::ffff:") {
+				// Not judged: Go renders the source of a connection from an IPv4-mapped
+				// address as plain IPv4 ("10.0.2.1:port"), so an inbound connection can
+				// never be matched to a peer keyed "::ffff:10.0.2.1". Whether AddPeer
+				// should refuse or unmap such an address is a design question the
+				// statement does not settle (DESIGN 11.2); the registry clauses and the
+				// outbound behaviour are judged for this key like for any other.
+				w.Probe("inbound-not-judged-for-v4-mapped-key")
 			} else {
 				dst, lis := "10.0.0.5", e.Lis[0]
-				if k == 2 {
+				if isV6(k) {
 					dst, lis = "fd00::5", e.Lis[1]
 				}
 				if a.laddr != "" {
